@@ -29,6 +29,27 @@ func (a asn1Stub) Sign(io.Reader, []byte, crypto.SignerOpts) ([]byte, error) {
 	return asn1.Marshal(struct{ R, S *big.Int }{a.r, a.s})
 }
 
+// asn1Device answers like asn1Stub but from one output buffer that it reuses for every call (as a driver for a hardware device would):
+// the first call returns DER(r, s), later calls DER(s, r).
+type asn1Device struct {
+	asn1Stub
+	buf   [600]byte
+	calls int
+}
+
+func (a *asn1Device) Sign(io.Reader, []byte, crypto.SignerOpts) ([]byte, error) {
+	a.calls++
+	r, s := a.r, a.s
+	if a.calls > 1 {
+		r, s = s, r
+	}
+	der, err := asn1.Marshal(struct{ R, S *big.Int }{r, s})
+	if err != nil {
+		return nil, err
+	}
+	return append(a.buf[:0], der...), nil
+}
+
 func algForCurve(c string) int {
 	switch c {
 	case "p256":
@@ -60,13 +81,15 @@ func init() {
 		}
 		ev := J{"op": "ecdsa-render", "curve": curve, "r": c["r"], "s": c["s"], "rneg": c["rneg"] == true, "alg": alg, "out": []int{}, "res": "n/a"}
 		if p := guard(func() {
-			sg, err := cose.NewSigner(cose.Algorithm(alg), asn1Stub{pub: &key.PublicKey, r: r, s: s})
+			sg, err := cose.NewSigner(cose.Algorithm(alg), &asn1Device{asn1Stub: asn1Stub{pub: &key.PublicKey, r: r, s: s}})
 			if err != nil {
 				ev["res"] = "factory-" + errClass(err)
 				return
 			}
 			out, err := sg.Sign(rand.Reader, []byte("m"))
 			ev["res"] = errClass(err)
+			// the key signs something else next; the signature handed out before is looked at only now
+			_, _ = sg.Sign(rand.Reader, []byte("another message"))
 			if out != nil {
 				ev["out"] = ints(out)
 			}
@@ -134,6 +157,9 @@ func init() {
 			}
 			if class == "shorts" && ls < n {
 				break
+			}
+			if class == "strail" && lr == n && ls == n && s.Bit(0) == 0 && new(big.Int).And(s, big.NewInt(255)).Sign() == 0 {
+				break // s ends in a zero byte: the exact form minus its last byte is a prefix that zero-extends to it
 			}
 			if try > 2000000 {
 				fatal("no signature of class %s found", class)
